@@ -88,6 +88,22 @@ def fixed_cases(tier):
                             a = {"op": kind + side, "when": ["t", k, off]}
                             b = {"op": ("start" if kind == "stop" else "restart") + side, "when": ["d", 0.3] if fam == "finite" else ["d", 8.0]}
                             out.append({"fam": fam, "tm": tm, "fr": [0.5], "steps": [first, a, b], "faults": [["ok"]], "v6": (k + len(out)) % 3 == 0})
+    if tier == "thorough":
+        # pairs of disturbances on both sides, each placed around a pending timer (finite family: no spacing restriction)
+        for pre in (0.3, 1.2):
+            for k1 in (0, 1):
+                for off1 in ("-q", "+q"):
+                    for kind1 in ("stop", "crash"):
+                        for s1 in "OW":
+                            for k2 in (0, 1):
+                                for off2 in ("-q", "+q"):
+                                    for kind2 in ("stop", "crash"):
+                                        s2 = "W" if s1 == "O" else "O"
+                                        steps = [{"op": "wait", "when": ["d", pre]}, {"op": kind1 + s1, "when": ["t", k1, off1]},
+                                                 {"op": kind2 + s2, "when": ["t", k2, off2]},
+                                                 {"op": ("start" if kind1 == "stop" else "restart") + s1, "when": ["d", 0.3]},
+                                                 {"op": ("start" if kind2 == "stop" else "restart") + s2, "when": ["t", 0, off1]}]
+                                        out.append({"fam": "finite", "tm": fin, "fr": [0.5], "steps": steps, "faults": [["ok"]], "v6": (k1 + k2) % 2 == 1})
     # D2: a restarted watcher's first Subscribe carries the reboot evidence (infinite TTL: nothing heals it later)
     out.append({"fam": "infinite", "tm": inf, "fr": [0.5], "steps": [{"op": "wait", "when": ["d", 3.0]}, {"op": "crashW", "when": ["d", 0.1]}, {"op": "restartW", "when": ["d", 0.5]}], "faults": [["ok"]]})
     out.append({"fam": "infinite", "tm": inf, "fr": [0.5], "steps": [{"op": "wait", "when": ["d", 3.0]}, {"op": "crashO", "when": ["d", 0.1]}, {"op": "restartO", "when": ["d", 0.5]}], "faults": [["ok"]]})
